@@ -81,7 +81,7 @@ func VerifChecksumKey(mid string) string {
 type VerifBackoff = backoff
 
 func (b *backoff) VerifUpdateAndGet(id peer.ID) (time.Duration, error) { return b.updateAndGet(id) }
-func (b *backoff) VerifCleanup()                                        { b.cleanup() }
+func (b *backoff) VerifCleanup()                                       { b.cleanup() }
 func (b *backoff) VerifKeys() []peer.ID {
 	b.mu.Lock()
 	defer b.mu.Unlock()
